@@ -247,10 +247,27 @@ func ruleWhoWritesTables(w *World, r *Report, rSingle, rCache string, la *LockAn
 		fi := a.Unit.fi
 		switch a.Field {
 		case ro.singletons:
-			if rSingle == "" || a.Kind != "method" || a.Call == nil {
+			if rSingle == "" {
 				continue
 			}
-			m := callee(a.Unit.pkg.TypesInfo, a.Call).Name()
+			m := ""
+			switch {
+			case a.Kind == "method" && a.Call != nil:
+				m = callee(a.Unit.pkg.TypesInfo, a.Call).Name()
+			case a.Kind == "index-write": // the table as a plain map
+				m = "Store"
+			case a.Kind == "delete" || a.Kind == "clear":
+				m = "Delete"
+			case a.Kind == "write":
+				if a.Unit != nil && isAllocatingFunc(w, a.Unit.fi, namedOfStruct(w, "provider")) {
+					continue
+				}
+				m = "Delete" // the whole table is replaced
+			case a.Kind == "read":
+				m = "Load"
+			default:
+				continue
+			}
 			n++
 			con := fmt.Sprintf("%s#singletons.%s/%d", fi.Name(), m, n)
 			switch m {
@@ -367,7 +384,7 @@ func ruleCreateCallSites(w *World, r *Report, rule string) {
 	present := map[types.Object]string{}
 	ast.Inspect(fi.Decl.Body, func(x ast.Node) bool {
 		if as, ok := x.(*ast.AssignStmt); ok && len(as.Lhs) == 2 && len(as.Rhs) == 1 {
-			if c, ok := unparen(as.Rhs[0]).(*ast.CallExpr); ok && callee(info, c) == ro.getSingleton.Obj && len(c.Args) == 1 {
+			if c, ok := unparen(as.Rhs[0]).(*ast.CallExpr); ok && ro.isGetSingleton(w, callee(info, c)) && len(c.Args) == 1 {
 				present[objOf(info, as.Lhs[1])] = exprStr(c.Args[0])
 			}
 		}
